@@ -8,34 +8,32 @@
       (R) recorded_in E o q r  ->  innermost (e_layout E) q = Some r            (only in the right repository)
       (O) innermost (e_layout E) q = None -> recorded nowhere                     (orphans ignored)
       (C) every listed file with innermost q = Some r is recorded in r            (nothing lost)
-   (R) and (O) hold as stated.  (S) is FALSE of the faithful model (C20_status0_refuted): the process
-   cwd may be gone (`current_dir().unwrap()` panics, exit 101: known class C20-K3) and a command line
-   that is not UTF-8 is refused by clap with exit 2 (C20-K4); C20_status0 is the statement under
-   exactly these two side conditions.  (C) is FALSE (C20_nested_complete_refuted, class C20-K1): a file
-   of a nested repository reported with the outer repository as working directory is recorded nowhere;
-   C20_complete_* give the classes in which (C) holds.  C20_scope_collapse_refuted (C20-K2): when every
-   listed file lies outside the repository of repo_working_dir, that repository's pass loses its
-   pathspec and scans the whole work tree.  C20_failed_pass_records_nothing: a repository whose pass
-   fails records nothing; class C20-K7 (one listed path that git refuses: `../ra/x`, the empty string, a
-   NUL byte) enters the model through e_run_fails.  Not modelled, found by the system-level oracle:
-   C20-K5 (i64 overflow in the Copilot session reader), C20-K6 (symlink read through by a whole-tree scan). *)
+   (R) and (O) hold as stated.  (S) holds for every command line that is valid UTF-8, the process cwd may be
+   gone (C20_status0, C20_never_panics: the repaired tree no longer unwraps current_dir(); the fact is
+   read from the source, so the proofs stop compiling if the unwrap comes back).  The unconditional (S)
+   is FALSE (C20_status0_refuted): a command line that is not UTF-8 is refused by clap with exit 2
+   (class C20-K4).  (C) is FALSE (C20_nested_complete_refuted, class C20-K1): a file of a nested
+   repository reported with the outer repository as working directory is recorded nowhere;
+   C20_complete_* give the classes in which (C) holds.  Repaired and now proved: a request that names
+   files never turns into a scan of the whole work tree (C20_listed_request_never_scans_all, was C20-K2);
+   a listed spelling git refuses (`../o/a`, empty, NUL) is resolved or left out instead of failing the
+   pass (Model.keeps / usable, was C20-K7; C20_ex_dotdot_reentry).  C20_failed_pass_records_nothing: a
+   repository whose pass fails for other reasons records nothing.  Not modelled, found by the system-level
+   oracle: C20-K6 (symlink read through by a whole-tree scan). *)
 From Coq Require Import List NArith Bool.
 From Verif Require Import Base.Str Gen.GenIngest Model.Ingest Proofs.IngestProofs.
 Import ListNotations.
 Open Scope N_scope.
 
-Theorem C20_status0 : forall E p h,
-  e_cwd E <> None -> h <> HArgvNotUtf8 -> status_of (handle_checkpoint E p h) = 0.
+Theorem C20_status0 : forall E p h, h <> HArgvNotUtf8 -> status_of (handle_checkpoint E p h) = 0.
 Proof. exact status0. Qed.
 Print Assumptions C20_status0.
 
-Theorem C20_never_panics : forall E p h, e_cwd E <> None -> handle_checkpoint E p h <> Panicked.
-Proof. exact never_panics_with_cwd. Qed.
+Theorem C20_never_panics : forall E p h, handle_checkpoint E p h <> Panicked.
+Proof. exact never_panics. Qed.
 Print Assumptions C20_never_panics.
 
-Theorem C20_status0_refuted :
-  (exists E p h, h <> HArgvNotUtf8 /\ status_of (handle_checkpoint E p h) <> 0) /\
-  (exists E p h, e_cwd E <> None /\ status_of (handle_checkpoint E p h) <> 0).
+Theorem C20_status0_refuted : exists E p h, e_cwd E <> None /\ status_of (handle_checkpoint E p h) <> 0.
 Proof. exact status0_refuted. Qed.
 Print Assumptions C20_status0_refuted.
 
@@ -98,11 +96,11 @@ Proof. exact (conj decoder_scalar_rejected (conj decoder_missing_tag decoder_unk
 Print Assumptions C20_decoder_rejects.
 
 Theorem C20_complete_file_based : forall E base fl s f q r,
-  In s fl -> f = absolutize base s ->
+  In s fl -> absolutize_opt base s = Some f ->
   e_stat E f = IsFile q -> canon E (parent_raw f) = Some (removelast q) ->
   q <> [] -> worktree_root_at (e_layout E) q = None ->
   innermost (e_layout E) q = Some r -> is_submodule r = false ->
-  prefixb (resolve E base) (r_root r) = true ->
+  match base with Some b => prefixb (resolve E b) (r_root r) = true | None => True end ->
   e_allowed E r = true -> e_run_fails E r = false ->
   recorded_in E (file_based_mode E base (Some fl)) q r.
 Proof. exact complete_file_based. Qed.
@@ -137,14 +135,19 @@ Theorem C20_nested_complete_refuted :
 Proof. exact nested_dropped. Qed.
 Print Assumptions C20_nested_complete_refuted.
 
-Theorem C20_scope_collapse_refuted :
+Theorem C20_listed_request_never_scans_all : forall E cwd ov rn fl,
+  rn_files rn = Some fl -> fl <> [] -> has_scope_all (route E cwd ov (Some rn)) = false.
+Proof. exact listed_request_never_scans_all. Qed.
+Print Assumptions C20_listed_request_never_scans_all.
+
+Theorem C20_foreign_request_records_nothing :
   exists E j fs,
     decode_agent_v1 j = DOk (mkRun Human (Some s_ws_o) (Some fs) None) /\
     collapsed E w_outer (map (absolutize (raw_of_path (workdir w_outer))) fs) = true /\
     exists st ps, handle_checkpoint E PAgentV1 (HText (Some j)) = Exit st ps /\
-                  In (mkPass w_outer ScopeAll false) ps.
-Proof. exact scope_collapse. Qed.
-Print Assumptions C20_scope_collapse_refuted.
+                  In (mkPass w_outer ScopeNone false) ps /\ has_scope_all (Exit st ps) = false.
+Proof. exact foreign_request_records_nothing. Qed.
+Print Assumptions C20_foreign_request_records_nothing.
 
 (* non-vacuity: the nested layout /ws/{o,o/i,s} *)
 Example C20_ex_workspace :
@@ -157,6 +160,18 @@ Example C20_ex_dotdot :
           (handle_checkpoint (w_env (Some (r_root w_outer))) PAgentV1 (HText (Some (w_payload s_ws_o [[97]; s_up_s_x]))))
   = [(w_outer, q_o_a); (w_sib, q_s_x)].
 Proof. exact ex_dotdot. Qed.
+
+Example C20_ex_gone_cwd :
+  let E := w_env None in
+  let o := handle_checkpoint E PAgentV1 (HText (Some (w_payload s_ws_o [[97]; s_abs_s_x]))) in
+  status_of o = 0 /\ records E o = [(w_outer, q_o_a); (w_sib, q_s_x)].
+Proof. exact ex_gone_cwd. Qed.
+
+Example C20_ex_dotdot_reentry :
+  let E := w_env (Some (r_root w_outer)) in
+  records E (handle_checkpoint E PAgentV1 (HText (Some (w_payload s_ws_o [[46; 46; 47; 111; 47; 97]]))))
+  = [(w_outer, q_o_a)].
+Proof. exact ex_dotdot_reentry. Qed.
 
 Example C20_ex_complete_hyps :
   let E := w_env (Some w_ws) in
